@@ -6,6 +6,7 @@ import Marwood.Lemmas.ListExtC05
 import Marwood.Lemmas.ListExtC18
 import Marwood.Lemmas.ListExtC12
 import Marwood.Lemmas.ListExtC06
+import Marwood.Lemmas.ListExtSession
 
 /-!
 # The machine-level property theorems at REAL builtins: no `Ext…` hypothesis left
